@@ -17,6 +17,7 @@ mod asyncsend;
 mod teardown;
 mod life;
 mod exec;
+mod mexec;
 
 use std::io::{BufRead, Write};
 
@@ -66,6 +67,7 @@ fn main() {
             "teardown" => teardown::run(&case),
             "life" => life::run(&case),
             "exec" => exec::run(&case),
+            "mexec" => mexec::run(&case),
             "status" => exec::run_status(&case),
             "latch" => exec::run_latch(&case),
             other  => panic!("unknown case kind '{other}'"),
